@@ -7,7 +7,7 @@ git -C /repo apply $D/patch.diff || { echo "patch does not apply"; exit 2; }
 cd /verif
 : > $D/detection.txt
 for p in "$@"; do
-  out=$(./check $p 2>&1); rc=$?
+  out=$(VERIF_NO_EVIDENCE=1 ./check $p 2>&1); rc=$?
   echo "$out" | grep -E "^VIOLATION|tier=|^  " | sed "s/^/[$p rc=$rc] /" | cut -c1-400 | tee -a $D/detection.txt
 done
 git -C /repo checkout -- .
